@@ -81,7 +81,9 @@ PROPS = {
         "technique": "Verus contracts on the real check_time_locks (extracted verbatim): iff-postcondition against per-assertion saturating-arithmetic spec (both checking modes), loop invariant over all spends; spec-level fold-vs-each lemmas; max/min folding arms and the relative mark in parse_conditions (units conditions_effects, conditions_record); impossible-window and ephemeral clauses of validate_conditions (iff)",
         "level_text": "Deductive proof (Verus/Z3) over all inputs: check_time_locks returns Ok exactly when every folded assertion holds with saturating sums; unbounded in number of spends and in all u32/u64 values.",
         "level_note": "Assumes vstd HashMap model and key model for Bytes32; both checking modes are specified (saturating sums in the consensus mode, modular sums in the legacy mode). Spec-level lemmas (lemma_after_fold, lemma_before_fold, lemma_relative_after_fold) prove that testing a max-/min-folded lock is the same as testing every individual assertion, for any number of assertions, including saturating relative sums. Folding (max for after-locks, min for before-locks, birth agreement, impossible-window rejection, relative-condition mark) is proved for parse_conditions against the effect spec; validate_conditions (unit validate_conds) is proved to accept iff no absolute before-lock is <= the absolute after-lock and no spend with a relative lock is ephemeral (iff, with is_ephemeral against its definition); ",
-        "components": [V("time_locks"), V("conditions_effects"), V("validate_conds"), V("conditions_record")],
+        "components": [V("time_locks"), V("conditions_effects"), V("validate_conds"), V("conditions_record"),
+                       N("native_time_locks_ground", "time_locks_ground", thorough_task="time_locks_ground:thorough"),
+                       N("native_relations_ground", "relations_ground", thorough_task="relations_ground:thorough")],
         "assumptions": [
             "vstd HashMap model; obeys_key_model::<Bytes32>() assumed (derived Hash/Eq on a byte array)",
             "the legacy wrapping mode (nowrap=false, outside the statement) is specified as addition modulo 2^width and proved as well",
@@ -117,7 +119,9 @@ PROPS["C01"] = {
     "technique": "Verus contracts on the real condition parser (parse_opcode, sanitizers, list helpers, SpendId::parse, parse_args extracted verbatim) proved equal to a table-driven rule spec over all allocator trees, opcodes and flag words; three overlays on the real parse_conditions / process_single_spend (summary == fold of the effect spec; recording rule for the deferred checks; signed texts); validate_conditions iff its accept spec; MempoolVisitor; parse_spends (unit drivers)",
     "level_text": "Deductive proof (Verus/Z3), unbounded in tree shape, list length and flags: each condition is accepted or rejected and decoded exactly as the rule table (DESIGN Appendix A) prescribes (tier 1, iff), and whenever parse_conditions / process_single_spend accept a spend, its summary (costs, relative/absolute locks, birth assertions, reserved fee, added amounts, created-coin set, coin identity) equals the fold of the per-condition effect spec over the condition list (tier 2); every announcement, concurrent-spend / -puzzle assertion, ephemeral assertion, relative mark and message is recorded into ParseState exactly once under the right coin and nothing else is (unit conditions_record, per condition); validate_conditions accepts exactly when the recorded assertions are satisfied (unit validate_conds, iff); parse_spends / run_spendbundle / run_block_generator2 string these together (unit drivers).",
     "level_note": "Assumed: clvmr Allocator accessor contracts (abstract immutable tree), bitflags semantics with constants read from flags.rs each run, 2-byte cost table entries (decided by native-eval under C04). Error codes are not part of the contract, accept/reject and the decoded value are.",
-    "components": [V("conditions_effects"), V("mempool_visitor"), V("validate_conds"), V("drivers"), V("conditions_record"), V("conditions_aggsig")],
+    "components": [V("conditions_effects"), V("mempool_visitor"), V("validate_conds"), V("drivers"), V("conditions_record"), V("conditions_aggsig"),
+                   # ground verdicts the rules prescribe (concurrent spends, announcements, messages, ephemeral coins, limits)
+                   N("native_relations_ground", "relations_ground", thorough_task="relations_ground:thorough")],
     "assumptions": [
         "clvmr::Allocator accessor contracts over an abstract immutable tree (shims/clvmr.rs)",
         "bitflags contains() == bit test on the constants read from flags.rs",
@@ -299,7 +303,7 @@ PROPS["C19"] = {
     "technique": "Verus contracts on the real fast_forward_singleton (guards + three-field frame over assumed clvm-traits codecs), compute_puzzle_fingerprint and hash_atom_list (framed-atom stream spec, hint rule tied to the condition parser's by a lemma), MempoolVisitor::{new_spend, condition, post_spend} and EmptyVisitor, all extracted verbatim",
     "level_text": "Deductive proof for every allocator tree, coin triple and flag word: (1) fast_forward_singleton returns Ok only for a genuine singleton spend of the stated coin - odd amounts, one puzzle hash shared by coin, new parent and new coin and equal to the tree hash of the revealed puzzle, singleton mod hash in both the curried struct and the revealed module, solution amount == coin amount, lineage proof hashing to the coin's parent id, inner puzzle hash matching, new coin a child of new parent - and the solution it returns decodes to the original with exactly lineage parent, parent amount and coin amount replaced; (2) the dedup fingerprint is sha256 of the length-framed atoms of every known condition with a fixed arity per opcode, a CREATE_COIN hint framed exactly when the parser's hint rule reports one (lemma against the C01 rule table), anything else refused (iff); (3) a signature or message condition always clears dedup eligibility and nothing else touches it during parsing; fast-forward eligibility is cleared exactly by the listed commitments; post_spend keeps dedup only when created value >= consumed and fast-forward only when the spend re-creates (own puzzle hash, own amount); visitors change nothing but the flags.",
     "level_note": "Assumed: the derived clvm-traits codecs of CurriedProgram<SingletonArgs>/SingletonSolution (FromClvm total function of the tree, ToClvm then FromClvm = identity), curry_and_treehash as an uninterpreted function, tree_hash's contract (proved in unit tree_hash), HashSet iterator adaptors any/map/sum (shims). Re-running the rewritten solution is CLVM execution (out of reach).",
-    "components": [V("mempool_visitor"), V("fast_forward"), V("fingerprint"), V("curry")],
+    "components": [V("mempool_visitor"), V("fast_forward"), V("fingerprint"), V("curry"), N("native_dedup_ground", "dedup_ground")],
     "assumptions": ["fewer than 2^31 conditions per spend (allocator limit) as precondition of condition()", "clvm-traits derived codecs (uninterpreted, round-trip assumed)",
                     "SHA-256 ghost model; u32::to_be_bytes uninterpreted"],
     "not_covered": [
